@@ -112,7 +112,7 @@ def _work(job: U.Job) -> evid.Local:
 
 def run(ctx: evid.Ctx) -> None:
     thorough = ctx.tier == "thorough"
-    d = 3 if thorough else 2
+    d = 3  # cheap enough for both tiers
     ks = kinds()
     _X["kinds"] = ks
     jobs = U.jobs(ks, d)
